@@ -8,8 +8,9 @@ From PV Require Import History Solver SolverProofs.
 Import ListNotations.
 Local Open Scope nat_scope.
 
-(* The full-strength statement.  It is FALSE of the faithful model (two refutations below: both are loud error
-   classes); what holds is C03_run_partial under the two decidable guards.  The Heun part is full-strength since
+(* The full-strength statement.  It is FALSE of the faithful model (one refutation below: the loud IndexError class
+   D05b); what holds is C03_run_partial under the decidable guards rows_fit and frame_ok (frame_ok = at least one
+   stored sample; the one-row/many-columns ValueError D35 is repaired by fix D62).  The Heun part is full-strength since
    fix D36: the model's heun_step is the Heun formula for every (stateful) right-hand side, no guard. *)
 Definition C03_full_statement : Prop :=
   forall (C : Type) (f : C -> nat -> row -> row * C) s T dt dts cutoff cols y0 c0,
@@ -93,7 +94,7 @@ Print Assumptions C03_heun_before_D36_refuted.
 (* -------- run(): values, time axis, cutoff -------- *)
 Theorem C03_run_partial : forall (C : Type) (f : C -> nat -> row -> row * C) s T dt dts cutoff cols y0 c0,
   let d := match dts with Some d => d | None => dt end in
-  rows_fit T dt d = true -> frame_ok T d (length cols) = true ->
+  rows_fit T dt d = true -> frame_ok T d = true ->
   run_model f s T dt dts cutoff cols y0 c0 = Rows (spec_run f s T dt dts cutoff cols y0 c0).
 Proof. exact run_partial. Qed.
 Print Assumptions C03_run_partial.
@@ -163,17 +164,18 @@ Theorem C03_refuted_index_error :
 Proof. exact refuted_index_error. Qed.
 Print Assumptions C03_refuted_index_error.
 
-Theorem C03_refuted_single_row :
+(* regression of fix D62 (was C03_refuted_single_row: ValueError for one stored sample and >= 2 columns) *)
+Theorem C03_single_row_after_D62 :
   outcome_eqb (run_model (lin_f wit_rhs2) Euler (mkq 1 8) (mkq 1 8) None (mkq 0 1) [0; 1] [mkq 1 1; mkq 2 1] 0)
-              (if fixed_D35 then Rows [[mkq 0 1; mkq 1 1; mkq 2 1]] else ErrShape) = true /\
-  frame_ok (mkq 1 8) (mkq 1 8) 2 = fixed_D35.
-Proof. exact refuted_single_row. Qed.
-Print Assumptions C03_refuted_single_row.
+              (Rows [[mkq 0 1; mkq 1 1; mkq 2 1]]) = true /\
+  rows_fit (mkq 1 8) (mkq 1 8) (mkq 1 8) = true /\ frame_ok (mkq 1 8) (mkq 1 8) = true.
+Proof. exact single_row_after_D62. Qed.
+Print Assumptions C03_single_row_after_D62.
 
 (* non-vacuity: T = 1, dt = 1/8, dts = 3/8, cutoff = 3/8, Heun satisfies both guards; the frame has the two rows at
    3/8 and 3/4 *)
 Example C03_nonvacuous :
-  rows_fit (mkq 1 1) (mkq 1 8) (mkq 3 8) = true /\ frame_ok (mkq 1 1) (mkq 3 8) 1 = true /\
+  rows_fit (mkq 1 1) (mkq 1 8) (mkq 3 8) = true /\ frame_ok (mkq 1 1) (mkq 3 8) = true /\
   match run_model (lin_f wit_rhs) Heun (mkq 1 1) (mkq 1 8) (Some (mkq 3 8)) (mkq 3 8) [0] [mkq 1 1] 0 with
   | Rows l => row_eqb (map (hd 0%Qc) l) [mkq 3 8; mkq 3 4] = true | _ => False end.
 Proof. repeat split; vm_compute; reflexivity. Qed.
